@@ -530,3 +530,63 @@ func genRichPackage(rd *hlib.Rand, dir string, idx int) (*pkg, []string, error) 
 	}
 	return p, g.feats, nil
 }
+
+// ---------------------------------------------------------------- malformed packages
+
+// breakPackage returns variants of a generated package's sources that the compiler
+// must reject, each aimed at another phase (parser, type lookup = the existence search
+// over c.structs, duplicate names, struct cycles, interface satisfaction = the
+// pick-the-largest loop, expression types).  nil text = the breakage does not apply.
+func breakPackage(rd *hlib.Rand, srcs []string) (kinds []string, variants [][]string) {
+	apply := func(kind string, f func(s string) (string, bool)) {
+		out := append([]string{}, srcs...)
+		for i := range out {
+			if t, ok := f(out[i]); ok {
+				out[i] = t
+				kinds = append(kinds, kind)
+				variants = append(variants, out)
+				return
+			}
+		}
+	}
+	replaceOnce := func(old, new string) func(string) (string, bool) {
+		return func(s string) (string, bool) {
+			if i := strings.Index(s, old); i >= 0 {
+				return s[:i] + new + s[i+len(old):], true
+			}
+			return s, false
+		}
+	}
+	apply("parse-error", func(s string) (string, bool) { return s + "\npub func (\n", true })
+	apply("unknown-type", replaceOnce("        f_a : base.u32,\n", "        f_a : base.u32,\n        f_zz : nosuch_type,\n"))
+	apply("unknown-field", replaceOnce("    return this.f_a\n", "    return this.nosuch_field\n"))
+	apply("duplicate-status", func(s string) (string, bool) {
+		i := strings.Index(s, " status \"")
+		if i < 0 {
+			return s, false
+		}
+		j := strings.LastIndex(s[:i], "\n") + 1
+		k := i + strings.Index(s[i:], "\n") + 1
+		return s[:k] + s[j:k] + s[k:], true
+	})
+	apply("struct-cycle", func(s string) (string, bool) {
+		i := strings.Index(s, "pri struct st")
+		if i < 0 {
+			return s, false
+		}
+		name := s[i+len("pri struct ") : i+strings.Index(s[i:], "?")]
+		k := i + strings.Index(s[i:], "(\n") + 2
+		return s[:k] + "        f_self : " + name + ",\n" + s[k:], true
+	})
+	// an interface implementation that lacks two methods: the error names one of them
+	apply("missing-interface-methods", func(s string) (string, bool) {
+		if !strings.Contains(s, ".checksum_u32() base.u32 {") || !strings.Contains(s, ".get_quirk(key: base.u32) base.u64 {") {
+			return s, false
+		}
+		s = strings.Replace(s, ".checksum_u32() base.u32 {", ".checksum_u33() base.u32 {", 1)
+		s = strings.Replace(s, ".get_quirk(key: base.u32) base.u64 {", ".get_quirq(key: base.u32) base.u64 {", 1)
+		return s, true
+	})
+	apply("type-mismatch", replaceOnce("    c = ((args.x & 0xFF) as base.u8)\n", "    c = args.x\n"))
+	return kinds, variants
+}
